@@ -1,4 +1,7 @@
 import ChfVerif.Lemmas.ChargingStep
+import ChfVerif.Lemmas.ChargingRecords
+import ChfVerif.Lemmas.LockDiscipline
+import ChfVerif.Gen.LockSites
 /-
   C12 — charging API contract: 201 + Location / 200 / 204; rejections (4xx) have no effect;
   recharge of a known subscriber: 204 and exactly one notification naming that rating group.
@@ -27,7 +30,9 @@ theorem C12_status_set (guard : SplitGuard) (s : State) (op : Op) (h : ∀ a b c
     simp only [step, create]
     split
     · simp
-    · split <;> simp
+    · split
+      · simp
+      · split <;> simp
   | update sid r =>
     simp only [step, update]
     split
@@ -48,54 +53,36 @@ theorem C12_status_set (guard : SplitGuard) (s : State) (op : Op) (h : ∀ a b c
   | credit a b c => exact absurd rfl (h a b c)
 
 /-- A rejected request (4xx) has no effect at all: accounts, reservations, rating modes, session map,
-    records and sequence numbers are exactly as before. -/
+    records and sequence numbers are exactly as before - for every request except a create that is refused only by
+    the record validation of OpenCDR (malformed PLMN id, incomplete PDU session information; see
+    `C12_refused_create` for those). -/
 theorem C12_reject_no_effect (guard : SplitGuard) (s : State) (op : Op)
+    (h4 : (step guard s op).2.status = 400 ∨ (step guard s op).2.status = 404)
+    (hnb : ∀ r, op = .create r → r.bad = false) :
+    (step guard s op).1 = s :=
+  rejected_same guard s op h4 hnb
+
+/-- Every rejected request whatsoever (4xx) - the creates refused by OpenCDR included - causes no account debit or
+    refund, no reservation or rating-mode change, no session-map change and no record change for any subscriber; the
+    record numbering is not advanced either. -/
+theorem C12_reject_no_money_no_records (guard : SplitGuard) (s : State) (op : Op)
     (h4 : (step guard s op).2.status = 400 ∨ (step guard s op).2.status = 404) :
-    (step guard s op).1 = s := by
-  cases op with
-  | create r =>
-    simp only [step, create] at h4 ⊢
-    split
-    · rfl
-    · split
-      · rfl
-      · rename_i hnf hp
-        simp only [hnf, hp, if_false] at h4
-        simp at h4
-  | update sid r =>
-    simp only [step, update] at h4 ⊢
-    split
-    · rfl
-    · rename_i ue hu
-      split
-      · rfl
-      · rename_i idx hl
-        simp only [hu, hl] at h4
-        simp at h4
-  | release sid r =>
-    simp only [step, release] at h4 ⊢
-    split
-    · rfl
-    · rename_i ue hu
-      split
-      · rfl
-      · rename_i idx hl
-        simp only [hu, hl] at h4
-        simp at h4
-  | recharge info =>
-    simp only [step, recharge] at h4 ⊢
-    split
-    · rename_i ueId rgStr hsp
-      split
-      · rfl
-      · rename_i rg hp
-        split
-        · rfl
-        · rename_i ue hu
-          simp only [hsp, hp, hu] at h4
-          simp at h4
-    · rfl
-  | credit a b c => simp [step] at h4
+    (step guard s op).1.accts = s.accts ∧ (step guard s op).1.tariffs = s.tariffs ∧
+    (step guard s op).1.localSeq = s.localSeq ∧ ∀ supi, ueView (step guard s op).1 supi = ueView s supi :=
+  rejected_view guard s op h4
+
+/-- A create that OpenCDR refuses is answered 400; what it leaves behind is exactly: the subscriber context (created
+    empty if the subscriber was unknown) with the request's notification address, and - for a session-based create -
+    one sequence number used up.  The number is deliberately not handed back: see `C10_refused_create_keeps_number`. -/
+theorem C12_refused_create (guard : SplitGuard) (s : State) (r : Req) (nf : Bytes) (hnf : r.nf = some nf)
+    (hp : supiAccepted r.supi = true) (hb : r.bad = true) :
+    (step guard s (.create r)).2 = { status := 400 } ∧
+    (step guard s (.create r)).1 =
+      { s with ues := putUe s.ues { ueOr s r with notifyUri := r.uri },
+               sessionSeq := if r.one then s.sessionSeq else s.sessionSeq + 1 } := by
+  show (create s r).2 = _ ∧ (create s r).1 = _
+  rw [create_bad s r nf hnf hp hb]
+  exact ⟨rfl, rfl⟩
 
 /-- An update or release naming an unknown subscriber is answered 400, naming an unknown (or stale, or
     foreign) session reference of a known subscriber 404. -/
@@ -112,7 +99,7 @@ theorem C12_unknown_session (guard : SplitGuard) (s : State) (sid : Bytes) (r : 
 /-- A session-based create that is accepted: 201, the Location reference is the new session's key in the
     subscriber's session map (so it can be used to address the session), sequence number echoed. -/
 theorem C12_create (guard : SplitGuard) (s : State) (r : Req) (nf : Bytes) (hnf : r.nf = some nf)
-    (hp : supiAccepted r.supi = true) (hone : r.one = false) :
+    (hp : supiAccepted r.supi = true) (hone : r.one = false) (hbad : r.bad = false) :
     (step guard s (.create r)).2.status = 201 ∧
     (step guard s (.create r)).2.loc = some (sessionId r.supi nf s.sessionSeq) ∧
     (step guard s (.create r)).2.seq = some r.seq ∧
@@ -120,7 +107,7 @@ theorem C12_create (guard : SplitGuard) (s : State) (r : Req) (nf : Bytes) (hnf 
       (lookupSid ue'.cdr (sessionId r.supi nf s.sessionSeq)).isSome := by
   have key : ∃ ue' : Ue, (step guard s (.create r)).1.ues = putUe s.ues ue' ∧ ue'.supi = r.supi ∧
       (lookupSid ue'.cdr (sessionId r.supi nf s.sessionSeq)).isSome := by
-    simp only [step, create, hnf, hp, hone, not_true_eq_false, if_false, Bool.false_eq_true]
+    simp only [step, create, hnf, hp, hone, hbad, not_true_eq_false, if_false, Bool.false_eq_true]
     refine ⟨_, rfl, ?_, ?_⟩
     · cases hu : findUe s.ues r.supi with
       | none => rfl
@@ -128,10 +115,22 @@ theorem C12_create (guard : SplitGuard) (s : State) (r : Req) (nf : Bytes) (hnf 
     · simp only [lookupSid_setSid_same, Option.isSome_some]
   obtain ⟨ue', h1, h2, h3⟩ := key
   refine ⟨?_, ?_, ?_, ue', ?_, h3⟩
-  · simp [step, create, hnf, hp, hone]
-  · simp [step, create, hnf, hp, hone]
-  · simp [step, create, hnf, hp, hone]
+  · simp [step, create, hnf, hp, hone, hbad]
+  · simp [step, create, hnf, hp, hone, hbad]
+  · simp [step, create, hnf, hp, hone, hbad]
   · rw [h1, ← h2]; exact findUe_putUe_same _ _
+
+/-- A one-time event that is accepted: 201, sequence number echoed, the reference part of the Location is EMPTY (an event opens
+    no session), no sequence number is used up, no money moves, and the record opened for it holds the reported usage. -/
+theorem C12_one_time_event (guard : SplitGuard) (s : State) (r : Req) (nf : Bytes) (hnf : r.nf = some nf)
+    (hp : supiAccepted r.supi = true) (hone : r.one = true) (hbad : r.bad = false) :
+    (step guard s (.create r)).2.status = 201 ∧
+    (step guard s (.create r)).2.loc = some [] ∧
+    (step guard s (.create r)).2.seq = some r.seq ∧
+    (step guard s (.create r)).1.sessionSeq = s.sessionSeq ∧
+    (step guard s (.create r)).1.accts = s.accts ∧
+    (step guard s (.create r)).1.localSeq = s.localSeq + 1 := by
+  simp [step, create, hnf, hp, hone, hbad]
 
 /-- An accepted update: 200 with the sequence number echoed. -/
 theorem C12_update (guard : SplitGuard) (s : State) (sid : Bytes) (r : Req) (ue : Ue) (idx : Nat)
@@ -153,5 +152,12 @@ theorem C12_recharge (guard : SplitGuard) (s : State) (info ueId rgStr : Bytes) 
     (hu : findUe s.ues ueId = some ue) (huri : ue.notifyUri = true) :
     (step guard s (.recharge info)).2.status = 204 ∧ (step guard s (.recharge info)).2.notif = [(ue.supi, rg)] := by
   simp [step, recharge, hsp, hrg, hu, huri]
+
+/-- "A request that names an unknown session reference … has no effect", also next to other requests of the subscriber: the
+    look-up that decides whether a reference is known, like every other access to subscriber state a handler can reach, is made
+    while the subscriber's mutex is held (regenerated tables of harness/cmd/stateaccess.go, `decide`) - so the decision cannot be
+    taken on a session map that a create or release is changing, nor be outdated when the request acts on it. -/
+theorem C12_state_access_under_lock :
+    Chf.LockDiscipline.stateAccessOK Chf.Gen.fnFacts Chf.Gen.callFacts = true := by decide
 
 end Chf.Props.C12
